@@ -220,6 +220,44 @@ def wrap_case(args) -> Dict[str, Any]:
     return {"problems": probs, "distinct_ids": len(set(seen)), "rounds": env.rounds, "wrapped": len(seen) > len(set(seen))}
 
 
+def crowd_case(args) -> Dict[str, Any]:
+    """many connections that hold NO dynamic id (modules with ids of their own, sockets that never say CONNECT): a request for a
+    dynamic id is served from the dynamic range, which is as good as empty"""
+    tc, n_static, n_silent = args
+    mmx.fresh_gc()
+    env = lock.Env(timecode=tc, fin_grace=0, hids={"M": 1})
+    probs = []
+    try:
+        for ev in [["conn", "M"], ev_send("M", P.mkframe(P.MT_CONNECT, P.p_connect(), timecode=tc, src_mod_id=90)), ["settle"]]:
+            env.apply(ev)
+        ids = [i for i in range(1, 100) if i != 90][:n_static]
+        for k, mid in enumerate(ids):
+            s = f"T{mid}"
+            env.apply(["conn", s])
+            env.apply(ev_send(s, P.mkframe(P.MT_CONNECT_V2, P.p_connect_v2(0, 0, 0, mid, 1, f"s{mid}".encode()), timecode=tc, src_mod_id=mid)))
+            if k % 20 == 19:
+                env.settle()
+        for k in range(n_silent):
+            env.apply(["conn", f"Q{k}"])
+        env.settle()
+        held = set()
+        for k in range(3):
+            s = f"D{k}"
+            env.apply(["conn", s])
+            env.apply(ev_send(s, P.mkframe(P.MT_CONNECT_V2, P.p_connect_v2(0, 0, 0, 0, 1, b""), timecode=tc)))
+            env.settle()
+            acks = [a for a in env.received[s] if a[0] == "ack"]
+            if len(acks) != 1 or not (DYN0 <= acks[0][1] < DYNMAX) or acks[0][1] in held:
+                probs.append({"prop": "C06", "kind": "dynamic-request-not-served", "static_modules": n_static, "silent_connections": n_silent, "request": k,
+                              "acks": [list(a) for a in acks], "held": sorted(held)})
+                break
+            held.add(acks[0][1])
+        probs += [dict(p) for p in env.problems if p["prop"] in ("C06", "C03", "C19")]
+    finally:
+        env.close()
+    return {"problems": probs, "distinct_ids": 0, "rounds": env.rounds, "wrapped": True}
+
+
 def order_case(args) -> Dict[str, Any]:
     """long-lived dynamic modules whose order in the manager's table is a given permutation of their id order (each one left and
     came back to its old id after a full turn of the cursor); then another full turn of connect/disconnect cycles: no newcomer is
@@ -535,6 +573,9 @@ def run_chunk(items):
         if kind == "order":
             out.append(order_case(args))
             continue
+        if kind == "crowd":
+            out.append(crowd_case(args))
+            continue
         if kind == "reconnect":
             out.append(reconnect_case(args))
             continue
@@ -580,6 +621,8 @@ def run(tier: str) -> int:
         # longer runs of ids in use when the cursor comes round again
         for keep in ((0, 1, 2, 3, 4), (0, 2, 3, 4, 5, 6, 7), tuple(range(12))):
             items.append(("wrap", (tc, keep, 105 if tier == "quick" else 230)))
+        for ns, nq in ((98, 0), (98, 5), (60, 60), (0, 130), (98, 130)):
+            items.append(("crowd", (tc, ns, nq)))
         # the holders sit in the manager's table in every order relative to their ids
         for m in ((2, 3) if tier == "quick" else (2, 3, 4)):
             for perm in itertools.permutations(range(m)):
@@ -611,7 +654,7 @@ def run(tier: str) -> int:
         if kind == "incumbent":
             totals["incumbent_cases"] = totals.get("incumbent_cases", 0) + 1
             totals["transitions"] = totals.get("transitions", 0) + r.get("rounds", 0)
-        elif kind in ("wrap", "order"):
+        elif kind in ("wrap", "order", "crowd"):
             wraps += 1
             totals["transitions"] = totals.get("transitions", 0) + r["rounds"]
             if not r["wrapped"]:
@@ -638,6 +681,8 @@ def replay(case) -> int:
         r = incumbent_case((args[0], args[1], tuple(args[2]), args[3]))
     elif kind == "reconnect":
         r = reconnect_case(tuple(args))
+    elif kind == "crowd":
+        r = crowd_case(tuple(args))
     elif kind in ("wrap", "order"):
         args = (args[0], tuple(args[1]), args[2])
         r = wrap_case(args) if kind == "wrap" else order_case(args)
